@@ -79,7 +79,8 @@ Record event := mkEv {
   e_misc : list (Z * Z);                           (* keyword arguments received from miscout (log events) *)
   e_ret : list (option loc);                       (* containers returned (operator / reset events); None = not a dict *)
   e_rmcfg : loc;                                   (* mating configuration returned (pselect) *)
-  e_rmisc : list (Z * Z)                           (* miscout as left by the operator *)
+  e_rmisc : list (Z * Z);                          (* miscout as left by the operator *)
+  e_hin : heap; e_hout : heap                      (* the whole heap when the call starts / returns (model only) *)
 }.
 (** * operators as arbitrary heap transformers *)
 Definition stash := list (option loc).
@@ -134,7 +135,7 @@ Definition call_op (tag : Z) (op : operator) (pass_mcfg takes_mcfg : bool) : ste
   | Some w =>
       let args := if pass_mcfg then w ++ [p_mcfg st] else w in
       let r := op (p_heap st) (p_stash st) args (p_t st) (p_tmax st) in
-      let ev := mkEv tag (p_t st) (p_tmax st) 0 args (snap (p_heap st) args) [] (r_roots r) (r_mcfg r) (r_misc r) in
+      let ev := mkEv tag (p_t st) (p_tmax st) 0 args (snap (p_heap st) args) [] (r_roots r) (r_mcfg r) (r_misc r) (p_heap st) (r_heap r) in
       if r_ok r then
         let (w', ok) := assign (p_work st) (r_roots r) in
         (mkSt (r_heap r) (r_stash r) (p_start st) w' (p_t st) (p_tmax st) (p_rep st)
@@ -151,7 +152,7 @@ Definition call_log (tag : Z) (lg : logger) (pass_mcfg : bool) : step := fun st 
       else
         let args := if pass_mcfg then w ++ [p_mcfg st] else w in
         let '(h', s', ok) := lg (p_heap st) (p_stash st) args (p_t st) (p_tmax st) (p_rep st) (p_misc st) in
-        let ev := mkEv tag (p_t st) (p_tmax st) (p_rep st) args (snap (p_heap st) args) (p_misc st) [] 0 [] in
+        let ev := mkEv tag (p_t st) (p_tmax st) (p_rep st) args (snap (p_heap st) args) (p_misc st) [] 0 [] (p_heap st) h' in
         (mkSt h' s' (p_start st) (p_work st) (p_t st) (p_tmax st) (p_rep st) (p_mcfg st) (p_misc st), [ev], ok)
   end.
 
@@ -174,7 +175,7 @@ Fixpoint reset_slots (h : heap) (start work : list (option loc)) : heap * list (
   end.
 Definition reset : step := fun st =>
   let '(h', w', ok) := reset_slots (p_heap st) (p_start st) (p_work st) in
-  let ev := mkEv T_RESET 0 (p_tmax st) (p_rep st) [] [] [] w' 0 [] in
+  let ev := mkEv T_RESET 0 (p_tmax st) (p_rep st) [] [] [] w' 0 [] (p_heap st) h' in
   (mkSt h' (p_stash st) (p_start st) w' (if ok then 0%Z else p_t st) (p_tmax st) (p_rep st) (p_mcfg st) (p_misc st), [ev], ok).
 
 (** one generation of advance() *)
@@ -205,7 +206,7 @@ Definition is_initialized (st : pstate) : bool := forallb (fun o => match o with
 Definition initialize (strict : bool) (res : list (option loc)) : step := fun st =>
   if strict then (st, [], false)
   else
-    let ev := mkEv T_INIT 0 0 0 [] [] [] [] 0 [] in
+    let ev := mkEv T_INIT 0 0 0 [] [] [] [] 0 [] (p_heap st) (p_heap st) in
     if Nat.eqb (length res) 5
     then (mkSt (p_heap st) (p_stash st) res (p_work st) (p_t st) (p_tmax st) (p_rep st) (p_mcfg st) (p_misc st), [ev], true)
     else (st, [ev], false).
